@@ -216,7 +216,7 @@ func main() {
 		return
 	}
 	r := report.New("C02", tier, "model_checking")
-	r.Rule = "E1: (a) every ring of 3 and 4 (thorough: 5) vertices over {0..3}^2 (thorough 5-rings over {0..2}^2), repeated vertices and self-intersections included, closed and unclosed spelling, x all 81 points of the half-integer grid over [-0.5,3.5]^2; (b) every two-ring Polygon and two-member MultiPolygon over the 504 triangles of {0..2}^2 x 49 half-integer points; (b') the same family on one polygon value per worker, rings cut from one flat buffer and edited in place between cases (answers depend on current coordinates only; caller's buffer not written); (c) every box over {0..3}^2 as *Bounds; (d) the 3-/4-vertex rings through 6 affine maps with non-representable coefficients and 2 exact scalings by 2^665 and 2^-665 at points with an exactly verified margin; (e) MultiPoint/LineString/MultiLineString/Polygon receivers with all vertex lists of length <= 2 (3 on a sub-grid) against 6 target shapes. Oracle: integer on-segment test and half-open crossing parity. Non-trivial = queries whose reference answer is OnEdge or whose ray passes through a vertex."
+	r.Rule = "E1: (a) every ring of 3 and 4 (thorough: 5) vertices over {0..3}^2 (thorough 5-rings over {0..2}^2), repeated vertices and self-intersections included, closed and unclosed spelling, x all 81 points of the half-integer grid over [-0.5,3.5]^2; (b) every two-ring Polygon and two-member MultiPolygon over the 504 triangles of {0..2}^2 x 49 half-integer points; (b') the same family on one polygon value per worker, rings cut from one flat buffer and edited in place between cases (answers depend on current coordinates only; caller's buffer not written); (b'') rings of 64..200 vertices (convex, with a hole, star-shaped) x 1849 lattice points; (c) every box over {0..3}^2 as *Bounds; (d) the 3-/4-vertex rings through 6 affine maps with non-representable coefficients and 2 exact scalings by 2^665 and 2^-665 at points with an exactly verified margin; (e) MultiPoint/LineString/MultiLineString/Polygon receivers with all vertex lists of length <= 2 (3 on a sub-grid) against 6 target shapes. Oracle: integer on-segment test and half-open crossing parity. Non-trivial = queries whose reference answer is OnEdge or whose ray passes through a vertex."
 	var n, nontrivial, skipped int64
 	viol := func(fam string, c Case, scale int64, sym, det string) {
 		r.Violation(fmt.Sprintf("%s|%s|%s", fam, c.AsType, sym), map[string]interface{}{"case": c, "scale": scale, "observed": det})
@@ -388,6 +388,57 @@ func main() {
 			}
 		}
 	})
+	// (b'') rings of many vertices: 64-, 65- and 200-gons (convex, integer
+	// vertices), a 100-gon with a 33-gon hole, and a star-shaped 128-vertex ring,
+	// closed and unclosed, x a 41x41 lattice of query points
+	{
+		gon := func(n int, r, rin float64) []P2 {
+			var o []P2
+			for k := 0; k < n; k++ {
+				a := 2 * math.Pi * (float64(k) + 0.25) / float64(n)
+				rr := r
+				if rin > 0 && k%2 == 1 {
+					rr = rin
+				}
+				o = append(o, P2{int64(math.Round(300 + rr*math.Cos(a))), int64(math.Round(300 + rr*math.Sin(a)))})
+			}
+			return o
+		}
+		shapes := [][][][]P2{
+			{{gon(64, 290, 0)}}, {{gon(65, 290, 0)}}, {{gon(200, 290, 0)}},
+			{{gon(100, 295, 0), gon(33, 120, 0)}},
+			{{gon(128, 290, 150)}},
+		}
+		var qs []P2
+		for x := int64(-15); x <= 615; x += 15 {
+			for y := int64(-15); y <= 615; y += 15 {
+				qs = append(qs, P2{x, y})
+			}
+		}
+		for _, polys := range shapes {
+			for spelling := 0; spelling < 2; spelling++ {
+				ps := polys
+				if spelling == 1 {
+					ps = [][][]P2{{}}
+					for _, ring := range polys[0] {
+						ps[0] = append(ps[0], append(append([]P2{}, ring...), ring[0]))
+					}
+				}
+				for _, as := range []string{"Polygon", "MultiPolygon"} {
+					for _, p := range qs {
+						c := Case{Polys: ps, AsType: as, Q: p}
+						n++
+						if classify(ps, p) == 2 {
+							nontrivial++
+						}
+						if sym, det := check(c, 2); sym != "" {
+							viol("many-vertices", c, 2, sym, det)
+						}
+					}
+				}
+			}
+		}
+	}
 	// (c) boxes
 	q3 := grid(-1, 7)
 	for x0 := int64(0); x0 <= 3; x0++ {
